@@ -1210,7 +1210,9 @@ class LineCoverageInstrumentation(transformer.LineCoverageInstrumentationAdapter
         Returns:
             True if the line should be instrumented, False otherwise.
         """
-        return instr.lineno != lineno
+        # Instructions without a line number (e.g., the implicit exception handler of a
+        # generator) do not belong to any line of the module.
+        return isinstance(instr.lineno, int) and instr.lineno != lineno
 
     def visit_node(  # noqa: D102
         self,
@@ -1290,7 +1292,9 @@ class CheckedCoverageInstrumentation(transformer.CheckedCoverageInstrumentationA
         Returns:
             True if the line should be instrumented, False otherwise.
         """
-        return instr.lineno != lineno
+        # Instructions without a line number (e.g., the implicit exception handler of a
+        # generator) do not belong to any line of the module.
+        return isinstance(instr.lineno, int) and instr.lineno != lineno
 
     def visit_node(  # noqa: D102
         self,
